@@ -62,6 +62,7 @@ K_LEFT = deriv_dispatch.K_LEFT                      # rational left limit at a C
 K_TENSOR = 'rational-surface-closed-form-tensor-false-indexerror'
 K_ZERO = 'rational-derivative-order-zero-returns-zero'
 K_DSNAN = 'derivative-spline-nan-at-discontinuity'
+K_DSONE = 'derivative-spline-periodic-single-controlpoint'   # C[i,i] overwritten by C[i,(i+1)%n] when n == 1
 
 _GEN = {'info': None}
 
@@ -196,10 +197,12 @@ def generate(rng, tier):
         avs = _above_variants(pd)
         mis = _multi_indices(pd, total)
         if pd == 3 and tier == 'quick':
-            mis = [m for m in mis if sum(m) <= 1] + rng.sample([m for m in mis if sum(m) > 1], 4)
+            hi = [m for m in mis if sum(m) > 1]
+            mis = [m for m in mis if sum(m) <= 1] + rng.sample(hi, min(4, len(hi)))
         if pd == 2 and tier == 'quick' and len(mis) > 12:
             low = [m for m in mis if sum(m) <= 3]
-            mis = low + rng.sample([m for m in mis if sum(m) > 3], 2)
+            hi = [m for m in mis if sum(m) > 3]
+            mis = low + rng.sample(hi, min(2, len(hi)))
         for idx in mis:
             cyc[pd] += 1
             c = cyc[pd]
@@ -723,6 +726,8 @@ def classify(s, res=None):
         dirs = range(pd) if s['dir'] < 0 else [s['dir']]
         if any(d < pd and _cm1_knots(o['bases'][d]) for d in dirs):
             return K_DSNAN
+        if any(d < pd and o['bases'][d]['periodic'] >= 0 and gen.basis_info(o['bases'][d])['n'] == 1 for d in dirs):
+            return K_DSONE
         return None
     if o['rational']:
         if k in ('binormal', 'cnormal') and s['above'][0] == 'seq' and not all(s['above'][1]):
